@@ -276,11 +276,13 @@ def r6(ctx: Ctx) -> None:
         "Term.__rmul__": ("ret", (to_poly(s_) * to_poly(t)).to_s()),
         "Expr.__rmul__": ("ret", (to_poly(s_) * to_poly(t)).to_s()),
     }
+    # a reflected product either delegates to the product ('self * other') or is the product's own definition written out
+    alternatives = {"Literal.__rmul__": [table["Literal.__mul__"]], "Term.__rmul__": [table["Term.__mul__"]]}
     for q, want in table.items():
         g = ctx.func(PB, q)
         cg = canon_function(g, ctx.model)
         ctx.site(g.where, f"{q} definition", form=show(want))
-        if cg != (want,):
+        if cg != (want,) and cg not in [(w,) for w in alternatives.get(q, [])]:
             ctx.report(g.where, f"overload-def {q}: " + "; ".join(show(x) for x in cg)[:160], f"{q} is not {show(want)}", lineno=g.node.lineno)
 
 
